@@ -216,11 +216,27 @@ func runMux(e *Env) {
 			"exec.afterWrite", "exec.timedOut", "recv.removed", "recv.deliver", "release.beforeClear",
 			"close.unlocked", "exec.gotStream", "exec.added", "exec.beforeWrite", "exec.gotResp",
 			"exec.ctxDone", "recv.lateRelease", "recv.header", "close.deliver", "exec.writeErr", "exec.connDone",
-			"wc.enqueued", "wc.beforeFlush", "dw.acquired",
+			"wc.enqueued", "wc.beforeFlush", "dw.acquired", "release.afterClear", "release.afterClear",
 		}, 3, 12)
 	}
 
 	// ---- workload ----
+	// targeted parks: for some requests, a point at which that very request is held (drawn
+	// here, on the root goroutine)
+	armPoints := []string{"release.afterClear", "release.beforeClear", "exec.beforeWrite", "exec.added", "exec.gotStream", "exec.afterWrite", "exec.writeErr"}
+	armNext := make([][]string, nTasks)
+	for ti := range armNext {
+		n := nOps
+		if flood {
+			n = 40
+		}
+		armNext[ti] = make([]string, n)
+		for oi := range armNext[ti] {
+			if faultsOn && tp.Chance(1, 6) {
+				armNext[ti][oi] = armPoints[tp.Next(len(armPoints))]
+			}
+		}
+	}
 	for ti := 0; ti < nTasks; ti++ {
 		ti := ti
 		k.Spawn(fmt.Sprintf("c%d", ti), func(t *kernel.Task) {
@@ -243,6 +259,10 @@ func runMux(e *Env) {
 				mu.Unlock()
 				var got string
 				var err error
+				if faultsOn && armNext[ti][oi] != "" {
+					// hold this very request at one point of its way through the driver
+					k.ArmNext(armNext[ti][oi])
+				}
 				if op.unbuildable {
 					b := sess.NewBatch(gocql.UnloggedBatch).WithContext(ctx)
 					b.Query(prepStmt, gocql.NamedValue("k", token))
